@@ -67,6 +67,7 @@ template <> struct Cd<int> {
   static bool enc(int v, std::vector<long>& o) { o.push_back(v); return true; }
   static int conj(int v) { return v; }
   static bool divExact(int a, int k) { return k != 0 && a % k == 0; }
+  static int quot(int a, int k) { return a / k; }
 };
 template <> struct Cd<double> {
   static constexpr int W = 1;
@@ -78,7 +79,15 @@ template <> struct Cd<double> {
   }
   static double conj(double v) { return v; }
   static bool divExact(double a, double k) { return k != 0 && (long)a % (long)k == 0; }
+  static double quot(double a, double k) { return (double)((long)a / (long)k); }
 };
+// libgcc divides complex numbers by Smith's method (ratio = smaller/larger component of the divisor); the quotient of
+// Gaussian integers is exact in double arithmetic when that ratio is: a zero component, equal magnitudes, or a power of
+// two as the larger magnitude.  Other divisors are outside the exact-arithmetic domain of this check ("inexact").
+static bool smithExact(long c, long d) {
+  long a = std::labs(c), b = std::labs(d), mx = std::max(a, b), mn = std::min(a, b);
+  return mn == 0 || mn == mx || (mx & (mx - 1)) == 0;
+}
 template <> struct Cd<CD> {
   static constexpr int W = 2;
   static bool dec(const long* p, CD& o) {
@@ -95,8 +104,13 @@ template <> struct Cd<CD> {
   static bool divExact(CD a, CD k) {
     long ar = (long)a.real(), ai = (long)a.imag(), kr = (long)k.real(), ki = (long)k.imag();
     long den = kr * kr + ki * ki;
-    if (den == 0) return false;
+    if (den == 0 || !smithExact(kr, ki)) return false;
     return (ar * kr + ai * ki) % den == 0 && (ai * kr - ar * ki) % den == 0;
+  }
+  static CD quot(CD a, CD k) {
+    long ar = (long)a.real(), ai = (long)a.imag(), kr = (long)k.real(), ki = (long)k.imag();
+    long den = kr * kr + ki * ki;
+    return CD((double)((ar * kr + ai * ki) / den), (double)((ai * kr - ar * ki) / den));
   }
 };
 template <> struct Cd<GF> {
@@ -105,6 +119,11 @@ template <> struct Cd<GF> {
   static bool enc(GF v, std::vector<long>& o) { o.push_back(v.v); return v.v >= 0 && v.v < GF::P; }
   static GF conj(GF v) { return v; }
   static bool divExact(GF, GF k) { return k.v != 0; }
+  static GF quot(GF a, GF k) {   // brute-force search for the q with q*k = a would be exact too; extended Euclid here
+    long r0 = GF::P, r1 = k.v, t0 = 0, t1 = 1;
+    while (r1) { long q = r0 / r1, r2 = r0 - q * r1, t2 = t0 - q * t1; r0 = r1; r1 = r2; t0 = t1; t1 = t2; }
+    return GF((long long)a.v * ((t0 % GF::P + GF::P) % GF::P));
+  }
 };
 
 template <class K> bool decList(const std::string& tok, std::vector<K>& out) {
@@ -181,7 +200,7 @@ template <class K> bool parseVec(const std::vector<std::string>& w, size_t& p, P
   v.kind = w[p];
   if (v.kind != "FV" && v.kind != "DV" && v.kind != "SC") return false;
   try { v.n = std::stoi(w[p + 1]); } catch (...) { return false; }
-  if (v.n < 1 || v.n > (v.kind == "DV" ? 6 : v.kind == "SC" ? 1 : 4)) return false;
+  if (1 > v.n || v.n > (v.kind == "DV" ? 6 : v.kind == "SC" ? 1 : 4)) return false;
   if (!decList<K>(w[p + 2], v.e) || (int)v.e.size() != v.n) return false;
   p += 3;
   return true;
@@ -263,42 +282,88 @@ template <class K, class M> bool sameAsStored(const M& A, const PM<K>& m) {
 
 enum : unsigned { bFM = 1, bDM = 2, bDG = 4, bSV = 8, bTV = 16, bTC = 32, bALL = 63 };
 
+// Static FieldMatrix shapes instantiated per field type (bit 4*(r-1)+(c-1)); the sets are symmetric under
+// transposition and together cover all of 1..4 x 1..4 (compile time of the sanitized harness is the limit).
+#ifndef C01_SHAPES_Z
+#define C01_SHAPES_Z 0xce73  // 11 12 21 22 23 32 33 34 43 44
+#endif
+#ifndef C01_SHAPES_D
+#define C01_SHAPES_D 0x25a5  // 11 13 31 22 24 42 33
+#endif
+#ifndef C01_SHAPES_C
+#define C01_SHAPES_C 0xffff
+#endif
+#ifndef C01_SHAPES_P
+#define C01_SHAPES_P 0x943b  // 11 12 21 14 41 22 33 44
+#endif
+template <class K> constexpr unsigned shapeMask = 0;
+template <> constexpr unsigned shapeMask<int> = C01_SHAPES_Z;
+template <> constexpr unsigned shapeMask<double> = C01_SHAPES_D;
+template <> constexpr unsigned shapeMask<CD> = C01_SHAPES_C;
+template <> constexpr unsigned shapeMask<GF> = C01_SHAPES_P;
+constexpr bool shapeIn(unsigned mask, int r, int c) { return r >= 1 && r <= 4 && c >= 1 && c <= 4 && ((mask >> (4 * (r - 1) + (c - 1))) & 1u); }
+template <class K> constexpr bool fmShape(int r, int c) { return shapeIn(shapeMask<K>, r, c); }
+static bool shapeAllowed(char field, int r, int c) {
+  return shapeIn(field == 'Z' ? shapeMask<int> : field == 'D' ? shapeMask<double> : field == 'C' ? shapeMask<CD> : shapeMask<GF>, r, c);
+}
+
+template <class M> constexpr int sRows() { if constexpr (isStatic<M>) return M::rows; else return 0; }
+template <class M> constexpr int sCols() { if constexpr (isStatic<M>) return M::cols; else return 0; }
+
 // call f(object) with the stored (un-transposed) object of the operand's base representation.
 // `mut`: f may modify the object; otherwise the object is compared with the operand afterwards.
-template <class K, unsigned MASK, class F> bool withStored(const PM<K>& m, bool mut, bool& modified, F&& f) {
+// FR / FC != 0 fix the stored number of rows / columns at compile time (fewer instantiations).
+template <class K, unsigned MASK, int FR = 0, int FC = 0, class F>
+bool withStored(const PM<K>& m, bool mut, bool& modified, F&& f) {
+  if ((FR && m.r != FR) || (FC && m.c != FC)) return false;
   bool done = false;
   auto after = [&](auto& A) { if (!mut && !sameAsStored<K>(A, m)) modified = true; done = true; };
   if (m.base == "FM") {
-    if constexpr (MASK & bFM)
-      withInt(m.r, [&](auto R) { withInt(m.c, [&](auto C) {
-        Dune::FieldMatrix<K, decltype(R)::value, decltype(C)::value> A;
-        fillMat<K>(A, m); f(A); after(A); }); });
+    if constexpr (MASK & bFM) {
+      auto mk = [&](auto R, auto C) {
+        if constexpr (fmShape<K>(decltype(R)::value, decltype(C)::value)) {
+          Dune::FieldMatrix<K, decltype(R)::value, decltype(C)::value> A;
+          fillMat<K>(A, m); f(A); after(A);
+        }
+      };
+      if constexpr (FR != 0 && FC != 0) mk(IC<FR>{}, IC<FC>{});
+      else if constexpr (FR != 0) withInt(m.c, [&](auto C) { mk(IC<FR>{}, C); });
+      else if constexpr (FC != 0) withInt(m.r, [&](auto R) { mk(R, IC<FC>{}); });
+      else withInt(m.r, [&](auto R) { withInt(m.c, [&](auto C) { mk(R, C); }); });
+    }
   } else if (m.base == "DM") {
     if constexpr (MASK & bDM) { Dune::DynamicMatrix<K> A(m.r, m.c, K(0)); fillMat<K>(A, m); f(A); after(A); }
   } else if (m.base == "DG") {
-    if constexpr (MASK & bDG)
-      withInt(m.r, [&](auto N) { Dune::DiagonalMatrix<K, decltype(N)::value> A; fillMat<K>(A, m); f(A); after(A); });
+    if constexpr ((MASK & bDG) && (FR == 0 || FC == 0 || FR == FC)) {
+      auto mk = [&](auto N) { Dune::DiagonalMatrix<K, decltype(N)::value> A; fillMat<K>(A, m); f(A); after(A); };
+      constexpr int FN = FR ? FR : FC;
+      if constexpr (FN != 0) mk(IC<FN>{}); else withInt(m.r, mk);
+    }
   } else if (m.base == "SV") {
-    if constexpr (MASK & bSV) { K s = m.e[0]; auto A = Dune::Impl::asMatrix(s); f(A); after(A); }
+    if constexpr ((MASK & bSV) && (FR == 0 || FR == 1) && (FC == 0 || FC == 1)) {
+      K s = m.e[0]; auto A = Dune::Impl::asMatrix(s); f(A); after(A);
+    }
   }
   return done;
 }
-// call f(object) with the operand as it is meant: plain, transposed copy (TC..) or transposed view (TV..)
-template <class K, unsigned MASK, class F> bool withMat(const PM<K>& m, bool mut, bool& modified, F&& f) {
+// call f(object) with the operand as it is meant: plain, transposed copy (TC..) or transposed view (TV..);
+// LR / LC != 0 fix the LOGICAL number of rows / columns at compile time
+template <class K, unsigned MASK, int LR = 0, int LC = 0, class F>
+bool withMat(const PM<K>& m, bool mut, bool& modified, F&& f) {
   if (m.tc) {
     if constexpr (MASK & bTC)
-      return withStored<K, MASK & (bFM | bDM | bDG)>(m, false, modified, [&](auto& A) {
+      return withStored<K, MASK & (bFM | bDM | bDG), LC, LR>(m, false, modified, [&](auto& A) {
         if (m.r % 2) { auto T = A.transposed(); f(T); } else { auto T = Dune::transpose(A); f(T); } });
     return false;
   }
   if (m.tv) {
     if constexpr (MASK & bTV)
-      return withStored<K, MASK>(m, false, modified, [&](auto& A) {
+      return withStored<K, MASK, LC, LR>(m, false, modified, [&](auto& A) {
         if (m.c % 2) { auto V = Dune::transposedView(A); f(V); }
         else { auto V = Dune::transpose(std::cref(A)); f(V); } });
     return false;
   }
-  return withStored<K, MASK>(m, mut, modified, f);
+  return withStored<K, MASK, LR, LC>(m, mut, modified, f);
 }
 
 template <class K, class V> void fillVec(V& v, const std::vector<K>& e) {
@@ -436,12 +501,10 @@ template <class K> Result execMul(const std::vector<std::string>& w) {
   // the pairs of representations for which dune-common offers operator*
   auto go = [&](auto maskA, auto maskB) {
     withMat<K, decltype(maskA)::value>(A, false, amod, [&](auto& MA) {
-      withMat<K, decltype(maskB)::value>(B, false, bmod, [&](auto& MB) {
-        using TA = std::decay_t<decltype(MA)>;
+      using TA = std::decay_t<decltype(MA)>;
+      withMat<K, decltype(maskB)::value, sCols<TA>(), 0>(B, false, bmod, [&](auto& MB) {
         using TB = std::decay_t<decltype(MB)>;
-        if constexpr (isStatic<TA> && isStatic<TB>) {
-          if constexpr (TA::cols == TB::rows && CanMul<TA, TB>::value) { auto Cm = MA * MB; got = readMat<K>(Cm); ran = true; }
-        } else if constexpr (CanMul<TA, TB>::value) { auto Cm = MA * MB; got = readMat<K>(Cm); ran = true; }
+        if constexpr (CanMul<TA, TB>::value) { auto Cm = MA * MB; got = readMat<K>(Cm); ran = true; }
       });
     });
   };
@@ -479,39 +542,33 @@ template <class K> Result execMulInPlace(const std::string& op, const std::vecto
   if (any) {
     if (A.base != "FM" || M.base != "FM") return badOp("FieldMatrix only");
     withStored<K, bFM>(A, false, amod, [&](auto& MA) {
-      withStored<K, bFM>(M, false, mmod, [&](auto& MM) {
-        using TA = std::decay_t<decltype(MA)>;
-        using TM = std::decay_t<decltype(MM)>;
-        if constexpr (TM::cols == TA::rows) {
-          if (op == "leftmultiplyany") { auto Cm = MA.template leftmultiplyany<TM::rows>(MM); got = readMat<K>(Cm); ran = true; }
-        }
-        if constexpr (TA::cols == TM::rows) {
+      using TA = std::decay_t<decltype(MA)>;
+      if (op == "leftmultiplyany")
+        withStored<K, bFM, 0, TA::rows>(M, false, mmod, [&](auto& MM) {
+          using TM = std::decay_t<decltype(MM)>;
+          auto Cm = MA.template leftmultiplyany<TM::rows>(MM); got = readMat<K>(Cm); ran = true; });
+      else
+        withStored<K, bFM, TA::cols, 0>(M, false, mmod, [&](auto& MM) {
+          using TM = std::decay_t<decltype(MM)>;
           if (op == "rightmultiplyany") { auto Cm = MA.template rightmultiplyany<TM::cols>(MM); got = readMat<K>(Cm); ran = true; }
-          if (op == "multmatrix") {
+          else {
             Dune::FieldMatrix<K, TA::rows, TM::cols> Cm(K(7));
             Dune::FMatrixHelp::multMatrix(MA, MM, Cm);
             got = readMat<K>(Cm); ran = true;
-          }
-        }
-      });
+          } });
     });
   } else {
+    // M is square; when *this has a static size, M's size is fixed by it
+    auto withSquare = [&](auto N, auto&& f2) {
+      constexpr int n = decltype(N)::value;
+      if constexpr (n != 0) withStored<K, bFM | bDM | bSV, n, n>(M, false, mmod, f2);
+      else if (M.base == "FM") withInt(M.r, [&](auto Q) { withStored<K, bFM, decltype(Q)::value, decltype(Q)::value>(M, false, mmod, f2); });
+      else withStored<K, bDM | bSV>(M, false, mmod, f2);
+    };
     withStored<K, bFM | bDM | bSV>(A, true, amod, [&](auto& MA) {
-      withStored<K, bFM | bDM | bSV>(M, false, mmod, [&](auto& MM) {
-        using TA = std::decay_t<decltype(MA)>;
-        using TM = std::decay_t<decltype(MM)>;
-        if constexpr (isStatic<TA> && isStatic<TM>) {
-          if constexpr (TM::rows == TM::cols && TM::rows == TA::rows) {
-            if (left) { auto& R = MA.leftmultiply(MM); got = readMat<K>(R); ran = (&R == &MA); }
-          }
-          if constexpr (TM::rows == TM::cols && TM::rows == TA::cols) {
-            if (!left) { auto& R = MA.rightmultiply(MM); got = readMat<K>(R); ran = (&R == &MA); }
-          }
-        } else {
-          if (left) { auto& R = MA.leftmultiply(MM); got = readMat<K>(R); ran = (&R == &MA); }
-          else { auto& R = MA.rightmultiply(MM); got = readMat<K>(R); ran = (&R == &MA); }
-        }
-      });
+      using TA = std::decay_t<decltype(MA)>;
+      if (left) withSquare(IC<sRows<TA>()>{}, [&](auto& MM) { auto& R = MA.leftmultiply(MM); got = readMat<K>(R); ran = (&R == &MA); });
+      else withSquare(IC<sCols<TA>()>{}, [&](auto& MM) { auto& R = MA.rightmultiply(MM); got = readMat<K>(R); ran = (&R == &MA); });
     });
   }
   if (!ran) return badOp(op + " not available for this pair");
@@ -587,7 +644,7 @@ template <class K> Result execMatVS(const std::string& op, const std::vector<std
       else if (op == "msub" || op == "mminus") r = a - lb(i, j);
       else if (op == "mscale" || op == "mtimes") r = a * s;
       else if (op == "mltimes") r = s * a;
-      else if (div) r = (!diagOnly || i == j) ? a / s : K(0);
+      else if (div) r = (!diagOnly || i == j) ? Cd<K>::quot(a, s) : K(0);
       else if (op == "maxpy") r = a + s * lb(i, j);
       else if (op == "mneg") r = K(0) - a;
       expect(i, j) = r;
@@ -619,11 +676,13 @@ template <class K> Result execMatVS(const std::string& op, const std::vector<std
     };
     if (A.base == "DG" || B.base == "DG") {
       if (A.base == "DG" && B.base == "DG")
-        withStored<K, bDG>(A, inplace, amod, [&](auto& MA) { withStored<K, bDG>(B, false, bmod, [&](auto& MB) {
-          if constexpr (std::is_same_v<std::decay_t<decltype(MA)>, std::decay_t<decltype(MB)>>) body(MA, MB); }); });
+        withStored<K, bDG>(A, inplace, amod, [&](auto& MA) {
+          using TA = std::decay_t<decltype(MA)>;
+          withStored<K, bDG, TA::rows, TA::cols>(B, false, bmod, [&](auto& MB) { body(MA, MB); }); });
     } else {
       withStored<K, bFM | bDM | bSV>(A, inplace, amod, [&](auto& MA) {
-        withStored<K, bFM | bDM | bSV>(B, false, bmod, [&](auto& MB) { body(MA, MB); }); });
+        using TA = std::decay_t<decltype(MA)>;
+        withStored<K, bFM | bDM | bSV, sRows<TA>(), sCols<TA>()>(B, false, bmod, [&](auto& MB) { body(MA, MB); }); });
     }
   } else {
     withStored<K, bFM | bDM | bDG | bSV>(A, inplace, amod, [&](auto& MA) {
@@ -649,9 +708,13 @@ template <class K> Result execMatVS(const std::string& op, const std::vector<std
 }
 
 // ---- vector-space operations on vectors ------------------------------------------------------------------------------
-template <class K, class F> bool withVec(const PV<K>& v, F&& f) {
+template <class K, int FN = 0, class F> bool withVec(const PV<K>& v, F&& f) {
   bool done = false;
-  if (v.kind == "FV") withInt(v.n, [&](auto N) { Dune::FieldVector<K, decltype(N)::value> x; fillVec<K>(x, v.e); f(x); done = true; });
+  if (FN && v.n != FN) return false;
+  if (v.kind == "FV") {
+    auto mk = [&](auto N) { Dune::FieldVector<K, decltype(N)::value> x; fillVec<K>(x, v.e); f(x); done = true; };
+    if constexpr (FN != 0) mk(IC<FN>{}); else withInt(v.n, mk);
+  }
   else if (v.kind == "DV") { Dune::DynamicVector<K> x(v.n); fillVec<K>(x, v.e); f(x); done = true; }
   return done;
 }
@@ -687,8 +750,8 @@ template <class K> Result execVec(const std::string& op, const std::vector<std::
     else if (op == "vsubs" || op == "v1_minus_s") r = x - s;
     else if (op == "s_minus_v1") r = s - x;
     else if (op == "vscale" || op == "vtimes" || op == "vltimes" || op == "v1_times_s" || op == "s_times_v1") r = x * s;
-    else if (op == "s_over_v1") r = s / x;
-    else if (div) r = x / s;
+    else if (op == "s_over_v1") r = Cd<K>::quot(s, x);
+    else if (div) r = Cd<K>::quot(x, s);
     else if (op == "vaxpy") r = x + s * y;
     dotT = dotT + x * y;
     dotH = dotH + Cd<K>::conj(x) * y;
@@ -706,8 +769,8 @@ template <class K> Result execVec(const std::string& op, const std::vector<std::
     else if (op == "fdotT") { got = {Dune::dotT(x, y)}; ran = true; }
   } else if (two) {
     withVec<K>(a, [&](auto& x) {
-      withVec<K>(b, [&](auto& y) {
-        using X = std::decay_t<decltype(x)>;
+      using X = std::decay_t<decltype(x)>;
+      withVec<K, (isFV<X> ? fvSize<X> : 0)>(b, [&](auto& y) {
         using Y = std::decay_t<decltype(y)>;
         constexpr bool compat = !(isFV<X> && isFV<Y>) || fvSize<X> == fvSize<Y>;
         if constexpr (compat) {
@@ -788,15 +851,30 @@ static const std::vector<std::string> VECOPS = {
     "s_times_v1", "v1_over_s", "s_over_v1", "v1_eq_s", "s_ne_v1"};
 static bool has(const std::vector<std::string>& v, const std::string& s) { return std::find(v.begin(), v.end(), s) != v.end(); }
 
+#ifndef C01_CATS
+#define C01_CATS 63
+#endif
 template <class K> Result execK(const std::vector<std::string>& w) {
   const std::string& op = w[1];
+#if C01_CATS & 1
   if (const KDef* kd = kdef(op)) return execKernel<K>(*kd, w);
+#endif
+#if C01_CATS & 2
   if (op == "mul") return execMul<K>(w);
+#endif
+#if C01_CATS & 4
   if (op == "leftmultiply" || op == "rightmultiply" || op == "leftmultiplyany" || op == "rightmultiplyany" || op == "multmatrix")
     return execMulInPlace<K>(op, w);
+#endif
+#if C01_CATS & 8
   if (op == "transposed" || op == "multtm") return execUnaryMat<K>(op, w);
+#endif
+#if C01_CATS & 16
   if (has(MATVS, op)) return execMatVS<K>(op, w);
+#endif
+#if C01_CATS & 32
   if (has(VECOPS, op)) return execVec<K>(op, w);
+#endif
   return badOp("unknown op " + op);
 }
 
@@ -866,7 +944,7 @@ struct Gen {
   }
 };
 
-std::string gen(Rng& rng, long, const Args&) {
+static std::string genOnce(Rng& rng) {
   static const char FIELDS[] = {'Z', 'D', 'C', 'C', 'P', 'C'};
   Gen g{rng, FIELDS[rng.below(6)]};
   std::ostringstream os;
@@ -953,7 +1031,8 @@ std::string gen(Rng& rng, long, const Args&) {
   auto rawScalars = [&](int n) { std::vector<long> v; for (int i = 0; i < n * g.W(); ++i) v.push_back(g.comp()); return v; };
   auto nonzero = [&]() {
     std::vector<long> k;
-    do { k = rawScalars(1); } while (std::all_of(k.begin(), k.end(), [](long x) { return x == 0; }));
+    do { k = rawScalars(1); } while (std::all_of(k.begin(), k.end(), [](long x) { return x == 0; }) ||
+                                      (g.K == 'C' && !smithExact(k[0], k[1]) && !r.coin(1, 8)));
     return k;
   };
   if (cat < 86) {
@@ -969,6 +1048,7 @@ std::string gen(Rng& rng, long, const Args&) {
     int rr, cc;
     shapeFor(ra == "DM" && rb != "DM" ? rb : ra, rr, cc);
     if (ra == "SV" || rb == "SV") rr = cc = 1;
+    if ((op == "madd" || op == "msub") && ra == "FM" && rr == 1 && cc == 1) rb = "FM";   // FieldMatrix<K,1,1> hides the generic += / -=
     bool div = op == "mdiv" || op == "mover";
     int cnt = ra == "DG" ? rr : rr * cc;
     std::string aStr, sStr = g.scalars(1);
@@ -1011,7 +1091,7 @@ std::string gen(Rng& rng, long, const Args&) {
     if (div) {
       auto k = nonzero();
       auto q = rawScalars(n);
-      if (op == "s_over_v1") { do { q = rawScalars(1); } while (std::all_of(q.begin(), q.end(), [](long x) { return x == 0; })); aStr = listStr(q); sStr = listStr(mulScalars(q, k)); }
+      if (op == "s_over_v1") { q = nonzero(); k = rawScalars(1); aStr = listStr(q); sStr = listStr(mulScalars(q, k)); }
       else { aStr = r.coin(1, 10) ? listStr(q) : listStr(mulScalars(q, k)); sStr = listStr(k); }
       aStr = ka + " " + std::to_string(n) + " " + aStr;
     } else aStr = g.vec(ka, n);
@@ -1030,6 +1110,22 @@ std::string gen(Rng& rng, long, const Args&) {
       } else os << " " << g.vec(kb, n);
     }
     return os.str();
+  }
+}
+
+// every FieldMatrix operand must have one of the static shapes instantiated for its field
+static bool shapesInstantiated(const std::string& line) {
+  auto w = words(line);
+  for (size_t i = 0; i + 2 < w.size(); ++i)
+    if (w[i] == "FM" || w[i] == "TCFM" || w[i] == "TVFM")
+      if (!shapeAllowed(w[0][0], std::stoi(w[i + 1]), std::stoi(w[i + 2]))) return false;
+  return true;
+}
+std::string gen(Rng& rng, long, const Args&) {
+  for (;;) {
+    std::string l = genOnce(rng);
+    if (shapesInstantiated(l)) return l;
+    stat("gen_retry_shape");
   }
 }
 
